@@ -249,7 +249,7 @@ Proof.
   - apply caller_start_Q, Q.
   - apply Fr, caller_timer_sq.
   - apply Fr, caller_wake_sq.
-  - apply Fr. destruct e as [k|p| |]; [cbn; split; reflexivity|apply pkt_rcvd_sq|apply conn_sq|apply conn_sq].
+  - apply Fr. destruct e as [k|p| | |d]; [cbn; split; reflexivity|apply pkt_rcvd_sq|apply conn_sq|apply conn_sq|cbn; split; reflexivity].
 Qed.
 
 Lemma boundary_sq lifo w w' : boundary lifo w = Some w' -> sq w w'.
